@@ -370,6 +370,10 @@ pub fn rpn_to_vpl(rpn: &str) -> Option<String> {
 					match v {
 						"n" => {}
 						"x" => s += &format!(" {k}=abc"),
+						"xf" => s += &format!(" {k}=1.5"),
+						"xn" => s += &format!(" {k}=-1"),
+						"xe" => s += &format!(" {k}=\"\""),
+						v if v.starts_with('x') => s += &format!(" {k}=abc"),
 						v => s += &format!(" {k}={v}"),
 					}
 				}
@@ -377,8 +381,20 @@ pub fn rpn_to_vpl(rpn: &str) -> Option<String> {
 			}
 			"B" => {
 				let p = st.pop()?;
-				if rest == "x" {
-					st.push(format!("{p} | filter_bbox bbox=[1,2,3]"));
+				if rest.starts_with('x') {
+					// not four numbers
+					let arg = match rest {
+						"x0" => "bbox=[]".to_string(),
+						"x1" => "bbox=[1]".to_string(),
+						"x5" => "bbox=[0,0,20,20,50]".to_string(),
+						"x8" => "bbox=[0,0,20,20,0,0,20,20]".to_string(),
+						"xr" => "bbox=[0,0,20,20] bbox=[0,0,20,20]".to_string(),
+						"xt" => "bbox=[0,0,20,20,abc]".to_string(),
+						"xn" => "bbox=[0,0,abc,20]".to_string(),
+						"xs" => "bbox=5".to_string(),
+						_ => "bbox=[1,2,3]".to_string(),
+					};
+					st.push(format!("{p} | filter_bbox {arg}"));
 				} else {
 					let v: Vec<String> = rest.split(':').map(|t| format!("\"{:?}\"", f64::from_bits(t.parse::<u64>().unwrap()))).collect();
 					st.push(format!("{p} | filter_bbox bbox=[{}]", v.join(",")));
